@@ -80,3 +80,5 @@ func dateTicks(rng *rand.Rand, n int) []int64 {
 	}
 	return out
 }
+
+func newRand(seed int64) *rand.Rand { return rand.New(rand.NewSource(seed)) }
